@@ -124,7 +124,7 @@ class RxWorld:
     props = ('C09',)
     levels = {'C09': 'exploration'}
     chunk = 200
-    budget = {'quick': dict(runs=10000, wall=50.0), 'thorough': dict(runs=500000, wall=900.0)}
+    budget = {'quick': dict(runs=10000, wall=180.0), 'thorough': dict(runs=500000, wall=900.0)}
     time_unit = 'n/a: logical steps only'
     state_measure = 'distinct (node kind read, cache state: fresh/dirty/error, value type) triples at reads'
     components = {'real': ['param.reactive.rx: operator table (normal and reflected), method/attribute recording, _resolve/_eval_operation, dirty '
